@@ -447,6 +447,13 @@ def _slice_tiling(ctx, rule):
     return c05.r2_slice_tiling(ctx, rule)
 
 
+def _renorm(ctx, rule):
+    # the pre-terminal probability equals the score only if the guesser rescales base structures under --skip_brute alone (seed
+    # C13-o: the Markov share subtracted in every run, so every guesser probability is p / (1 - P(M)) while the scorer reports p)
+    from . import c14
+    return c14.r2_renormalisation(ctx, rule)
+
+
 def _mask_per_character(ctx, rule):
     # the scorer prices the spelling whose mask is 'U' where letter.isupper(); the guesser emits that spelling only if it upper-cases
     # the character at the same position (seed C13-i: end_word.upper() taken once and zipped with the mask)
@@ -456,7 +463,7 @@ def _mask_per_character(ctx, rule):
 
 def rules(tier):
     return [('C13.R1', r1_detector_order), ('C13.R2', r2_early_return), ('C13.R3', r3_factors), ('C13.R4', r4_effect_free),
-            ('C13.R5', r5_loader), ('C13.R8', _splice), ('C13.R9', c03.r2_mask_producer), ('C13.R10', c03.r3_mask_insertion), ('C13.R11', r11_no_shared_class_state), ('C13.R12', _adoption), ('C13.R13', _mask_per_character), ('C13.R14', r14_recasing_round_trip), ('C13.R15', _successor), ('C13.R16', _slice_tiling), ('C13.R6', lambda c, r: c07.r5_strip_discipline(c, r, only=('lib_guesser/grammar_io.py::_load_from_file', 'lib_scorer/grammar_io.py::_load_from_file',
+            ('C13.R5', r5_loader), ('C13.R8', _splice), ('C13.R9', c03.r2_mask_producer), ('C13.R10', c03.r3_mask_insertion), ('C13.R11', r11_no_shared_class_state), ('C13.R12', _adoption), ('C13.R13', _mask_per_character), ('C13.R14', r14_recasing_round_trip), ('C13.R15', _successor), ('C13.R16', _slice_tiling), ('C13.R17', _renorm), ('C13.R6', lambda c, r: c07.r5_strip_discipline(c, r, only=('lib_guesser/grammar_io.py::_load_from_file', 'lib_scorer/grammar_io.py::_load_from_file',
                                                                         'lib_guesser/grammar_io.py::_load_base_structures'), floor=3)),
             ('C13.R7', lambda c, r: c07.r2_encoding_agreement(c, r, file_filter=lambda fid: fid[0] not in ('Omen', 'Emails', 'Websites', 'Prince'), floor=12))]
 
